@@ -333,6 +333,6 @@ func TestVerif_C11(t *testing.T) {
 		return
 	}
 	if vfOnlySub("gen") {
-		vfRun(t, vfSub[c11Case]{Prop: "C11", Name: "gen", Checks: vfN(100000, 5000000), Gen: c11Gen, Check: c11Check})
+		vfRun(t, vfSub[c11Case]{Prop: "C11", Name: "gen", Checks: vfN(100000, 40000000), Gen: c11Gen, Check: c11Check})
 	}
 }
